@@ -37,6 +37,10 @@ MAY_PANIC = [
     ("step-by", r"core::iter::traits::iterator::Iterator::step_by$"), ("refcell", r"core::cell::RefCell::<T>::borrow(_mut)?$"),
     ("mutex", r"std::sync::(poison::)?mutex::Mutex::<T>::lock$"), ("process", r"std::process::(exit|abort)$"),
     ("from-str-radix", r"$^"),
+    # arithmetic on references to primitive integers (`a + b` with a, b: &i64) is a call of core's forwarding impl, not a MIR
+    # Assert; the impls carry #[rustc_inherit_overflow_checks], so in a build with overflow checks they panic like the plain operator
+    ("int-arith", r"^<&?'?[a-z_]* ?(i|u)(8|16|32|64|128|size) as core::ops::arith::(Add|Sub|Mul|Neg)(<&?'?[a-z_]* ?(i|u)(8|16|32|64|128|size)>)?>::(add|sub|mul|neg)$"),
+    ("int-arith", r"^<(i|u)(8|16|32|64|128|size) as core::ops::arith::(AddAssign|SubAssign|MulAssign)<&"),
 ]
 MAY_PANIC = [(k, re.compile(r)) for k, r in MAY_PANIC]
 
@@ -1241,6 +1245,35 @@ def _nanos_scaling(F, s, e):
     return ok, ("nanoseconds parsed from f, scaled by 10^(9 - len(f))" if ok else "operands are %s * %s" % (sa[:60], sb[:60]))
 
 
+def _name_exponents_bounded(F, s, e):
+    """`a + b` on the exponents of the names of a conversion target (eval_unit_name's merges): every exponent is the literal 1
+    of a single name, a checked negation, or a checked product that passed `unsigned_abs() <= isize::MAX >> k` with k >= 8, so
+    a sum needs 2^k terms to leave isize - more factors than a line of ordinary length has."""
+    eun = F.find(CORE, "runtime::eval::eval_unit_name")
+    fam = [eun] + [f for f in F.by_crate[CORE] if f.path.startswith(eun.path + "::{closure")]
+    has_cmul = has_cneg = False
+    bound = None
+    for f in fam:
+        for bb, t in f.calls():
+            if "callee" in t:
+                n = t["callee"]["path"]
+                has_cmul = has_cmul or n.endswith("<impl isize>::checked_mul")
+                has_cneg = has_cneg or n.endswith("<impl isize>::checked_neg")
+        for i, j, st in f.stmts():
+            rv = st.get("rv", {})
+            if rv.get("k") == "binop" and rv["op"] == "Le" and "unsigned_abs" in ap_str(f.apath(rv["a"])):
+                b = f.apath(rv["b"])
+                if b[0][0] == "binop" and b[0][1] == "Shr" and b[0][3][0][0] == "const" and isinstance(b[0][3][0][1], int):
+                    bound = b[0][3][0][1]
+        for bb, blk in enumerate(f.blocks):
+            t = blk["term"]
+            if t["k"] == "assert" and not blk["cleanup"] and t["msg"].get("kind") in ("Overflow", "OverflowNeg") and str(t["msg"].get("aty", "isize")) == "isize" and t["msg"].get("op") in ("Mul", None):
+                return False, "unchecked %s on a name exponent at %s" % (t["msg"].get("op") or "Neg", f.where(bb))
+    ok = has_cmul and has_cneg and bound is not None and bound >= 8
+    return ok, ("exponents: literal 1, checked_neg, checked_mul behind |v| <= isize::MAX >> %s" % bound if ok else
+                "checked_mul %s, checked_neg %s, magnitude bound %s" % (has_cmul, has_cneg, bound))
+
+
 def _unit_name_constant_rational(F, s, e):
     """Context::show(.., bottom_const, ..): the constant of a conversion target.  Every caller passes Numeric::one() or the
     second component of eval_unit_name's result (directly, or through Substance::get_in_unit's parameter of the same name), and
@@ -1737,6 +1770,7 @@ def _operands_reset_to_one(F, s, e):
 
 BACKING = {
     "unit_name_constant_rational": _unit_name_constant_rational,
+    "name_exponents_bounded": _name_exponents_bounded,
     "i32_interval": _i32_interval,
     "sign_times_parsed": _sign_times_parsed,
     "nanos_scaling": _nanos_scaling,
